@@ -141,9 +141,10 @@ func (p *HTTPProxy) ServeHTTP(w http.ResponseWriter, r *http.Request) {
 
 	// build the real target url that is passed to the proxy
 	targetURL := &url.URL{
-		Scheme: t.URL.Scheme,
-		Host:   t.URL.Host,
-		Path:   r.URL.Path,
+		Scheme:  t.URL.Scheme,
+		Host:    t.URL.Host,
+		Path:    r.URL.Path,
+		RawPath: r.URL.RawPath,
 	}
 	if t.URL.RawQuery == "" || r.URL.RawQuery == "" {
 		targetURL.RawQuery = t.URL.RawQuery + r.URL.RawQuery
@@ -162,6 +163,16 @@ func (p *HTTPProxy) ServeHTTP(w http.ResponseWriter, r *http.Request) {
 		if !strings.HasPrefix(targetURL.Path, "/") {
 			targetURL.Path = "/" + targetURL.Path
 		}
+		// keep the percent-encoding the client used (e.g. %2F): strip the
+		// escaped form as well or drop it if it does not carry the prefix
+		if strings.HasPrefix(targetURL.RawPath, t.StripPath) {
+			targetURL.RawPath = targetURL.RawPath[len(t.StripPath):]
+			if !strings.HasPrefix(targetURL.RawPath, "/") {
+				targetURL.RawPath = "/" + targetURL.RawPath
+			}
+		} else {
+			targetURL.RawPath = ""
+		}
 	}
 
 	if t.PrependPath != "" {
@@ -170,6 +181,12 @@ func (p *HTTPProxy) ServeHTTP(w http.ResponseWriter, r *http.Request) {
 		// section 5.3 of RFC7230 (https://tools.ietf.org/html/rfc7230#section-5.3)
 		if !strings.HasPrefix(targetURL.Path, "/") {
 			targetURL.Path = "/" + targetURL.Path
+		}
+		if targetURL.RawPath != "" {
+			targetURL.RawPath = t.PrependPath + targetURL.RawPath
+			if !strings.HasPrefix(targetURL.RawPath, "/") {
+				targetURL.RawPath = "/" + targetURL.RawPath
+			}
 		}
 	}
 
